@@ -9,24 +9,47 @@ _JUDGE = None
 
 def prelude(cfg):
     """process-wide state must not leak from one composition into the next: a configuration flagged 'prelude' is first run ONCE to completion
-    along the default path (fresh objects, result discarded) in the same process, then explored; a replay repeats exactly this history"""
+    along the default path (fresh objects, result discarded) in the same process - or, flagged 'aborted', abandoned once the first component has
+    reached the end time while another is behind -, then explored; a replay repeats exactly this history"""
     if cfg.get("prelude"):
         try:
-            sched.run_path({k: v for k, v in cfg.items() if k not in ("prelude", "stateless")}, [], default=True)
+            base = {k: v for k, v in cfg.items() if k not in ("prelude", "stateless")}
+            if cfg["prelude"] == "aborted":
+                # the first run does not get to its end: it is abandoned (an exception out of a component, handled by the caller) as soon as the
+                # first component has reached the end time while another one is still behind; largest step everywhere, at most 40 choices
+                from core.common import hrs
+
+                r = sched.Run(base)
+                out = r.resume()
+                for _ in range(40):
+                    if out[0] != "pause":
+                        break
+                    ts = [hrs(c.time) for c in r.comps.values() if getattr(c, "menu", None) is not None and c.time is not None]
+                    if ts and max(ts) >= r.end > min(ts):
+                        break
+                    comp = r.comps[out[1]]
+                    comp.pending = max(comp.menu)
+                    out = r.resume()
+            else:
+                sched.run_path(base, [], default=True)
         except BaseException:  # noqa - whatever the first run does is judged when the configuration itself is explored
             pass
 
 
-def with_prelude(cases, limit=80):
+def with_prelude(cases, limit=120):
     """copies (flagged 'prelude') of the first snapshot-mode configuration per (family, adapter kinds on the links)"""
-    seen, out = set(), []
+    best = {}
     for c in cases:
         if c.get("stateless") or c.get("unit_us"):
             continue
         key = (c.get("family"), tuple(sorted({t[0] for l in c["links"] for t in l["chain"]})), tuple(sorted(ci["kind"] for ci in c["comps"])))
-        if key not in seen and len(out) < limit:
-            seen.add(key)
-            out.append(dict(c, prelude=True))
+        rank = (not any(ci.get("fixed") for ci in c["comps"]), c.get("end", 0))  # choice mode before fixed step lists (an abandoned first run needs choice points), then the longest run
+        if key not in best or rank > best[key][0]:
+            best[key] = (rank, c)
+    out = []
+    for _rank, c in list(best.values())[: limit // 2]:
+        out.append(dict(c, prelude=True))
+        out.append(dict(c, prelude="aborted"))
     return out
 
 
@@ -77,9 +100,9 @@ def run_cases(cases, clauses, agg, judge=None, seed=0):
     global _CLAUSES, _JUDGE
     _CLAUSES, _JUDGE = tuple(clauses), judge
     cases = list(cases)
-    cases += with_prelude(cases)
+    pre = with_prelude(cases)
     k = seed % max(1, len(cases))
-    cases = cases[k:] + cases[:k]
+    cases = pre + cases[k:] + cases[:k]  # (first: on a tree that is broken all over the run stops early, and these examples reproduce in a fresh process)
     # big cases first for load balance
     for r in pmap(_work, cases, chunksize=1):
         agg.add(r)
